@@ -67,6 +67,10 @@ def handlesValid (p : P) : Op → Bool
   | .addLib _ => true
   | .libSyms lib _ => decide (lib < p.libs.all.length)
   | .addMapping pi lib _ _ _ => decide (pi < p.processes.length) && decide (lib < p.libs.all.length)
+  | .removeMapping pi _ => decide (pi < p.processes.length)
+  | .addKernelMapping lib _ _ _ => decide (lib < p.libs.all.length)
+  | .removeKernelMapping _ => true
+  | .clearMappings pi => decide (pi < p.processes.length)
   | .string _ => true
   | .category _ _ => true
   | .subcategory c _ => decide (c < p.cats.length)
@@ -85,7 +89,7 @@ def handlesValid (p : P) : Op → Bool
   | .sameSample t => decide (t < p.threads.length)
   | .allocSample t stack => decide (t < p.threads.length) && p.optStackOk stack
   | .markerType _ cat _ => decide (cat < p.cats.length)
-  | .marker t ty name strs =>
+  | .marker t ty name strs _ =>
     decide (t < p.threads.length) && p.strOk name && strs.all p.strOk &&
       (match p.schemaOf ty with
        | some fields => decide (strs.length = (fields.filter (· ≠ .n)).length)
